@@ -109,6 +109,8 @@ class CallMixin:
             return [(st, self.module_attr(o, attr))]
         if isinstance(o, SExc):
             raise ToolLimit('exception attribute %s' % attr)
+        if isinstance(o, SDictAttrib) and attr == 'get':
+            return [(st, SFunc(None, self_val=o, builtin='attrib.get'))]
         if isinstance(o, SDict):
             if attr in ('items', 'get', 'keys', 'values'):
                 return [(st, SFunc(None, self_val=o, builtin='dict.' + attr))]
@@ -121,12 +123,16 @@ class CallMixin:
     def opaque_attr(self, st, o, attr, ln):
         if o.kind == 'namespace':
             return [(st, o.fields[attr])]
-        if o.kind in ('file', 'stderr', 'parser', 's3client', 's3resource', 'paginator', 's3object', 's3body', 'etree'):
+        if o.kind in ('file', 'stderr', 'parser', 's3client', 's3resource', 'paginator', 's3object', 's3body', 'etree', 'elementtree'):
             return [(st, SFunc(None, self_val=o, builtin='%s.%s' % (o.kind, attr)))]
         raise ToolLimit('attribute %s of opaque %s' % (attr, o.kind))
 
     def module_attr(self, m, attr):
         name = m.name
+        if name == 'xml.etree' and attr == 'ElementTree':
+            return SModule('xml.etree.ElementTree')
+        if name == 'xml.etree.ElementTree' and attr == 'ParseError':
+            return SCls('ParseError')
         # repository modules
         if name in self.repo.module_globals:
             return self.global_name(attr, name)
@@ -556,6 +562,9 @@ class CallMixin:
             raise ToolLimit('chain.from_iterable needs the assumed contract builtin.chain')
         return c.apply(self, st, {'xss': pos[0]})
 
+    def bi_elementtree_getroot(self, f, pos, kws, st, ln):
+        return [(st, f.self_val.root)]
+
     def bi_dateutil_parser_parse(self, f, pos, kws, st, ln):
         v = pos[0]
         self.assumed_used.add('A-DT')
@@ -591,6 +600,22 @@ class CallMixin:
         if isinstance(v, SNone):
             return [self.raise_(st, 'TypeError', origin='timedelta(seconds=None) L%d' % ln)]
         raise ToolLimit('timedelta(%r)' % (v,))
+
+    def bi_xml_etree_ElementTree_fromstring(self, f, pos, kws, st, ln):
+        return self.c_apply('lib.ElementTree.fromstring', st, {'text': pos[0]})
+
+    def bi_xml_etree_ElementTree_parse(self, f, pos, kws, st, ln):
+        return self.c_apply('lib.ElementTree.parse', st, {'source': pos[0]})
+
+    def bi_xml_etree_ElementTree_tostring(self, f, pos, kws, st, ln):
+        return self.c_apply('lib.ElementTree.tostring', st, {'element': pos[0]})
+
+    def c_apply(self, name, st, bound):
+        c = self.contracts.get(name)
+        if c is None:
+            raise ToolLimit('library call needs the assumed contract %s' % name)
+        self.used_contracts.add(name)
+        return c.apply(self, st, bound)
 
     # --- str methods (A-STR: uninterpreted but functional)
     def bi_str_strip(self, f, pos, kws, st, ln):
@@ -686,8 +711,33 @@ class CallMixin:
             return [(st, SList.of([STuple([k, v]) for k, v in d.concrete]))]
         raise ToolLimit('items() of symbolic dict')
 
+    def bi_attrib_get(self, f, pos, kws, st, ln):
+        # Element.attrib.get(key): the attribute value or None
+        return [(st, SStr(L.attrib(f.self_val.node, pos[0].t)))]
+
     def bi_dict_get(self, f, pos, kws, st, ln):
         d = f.self_val
+        if d.concrete is not None:
+            key = pos[0]
+            cs = [(self.sv_eq(key, k), v) for k, v in d.concrete]
+            for c, v in cs:
+                if c is True:
+                    return [(st, v)]
+            cs = [(c, v) for c, v in cs if c is not False]
+            out = []
+            cur = st
+            for c, v in cs:
+                nxt = None
+                for s2, b in self.branch(cur, c, 'get%d' % ln):
+                    if b:
+                        out.append((s2, v))
+                    else:
+                        nxt = s2
+                if nxt is None:
+                    return out
+                cur = nxt
+            out.append((cur, pos[1] if len(pos) > 1 else NONE))
+            return out
         if d.sym is not None and isinstance(pos[0], SStr):
             keys, vals, nonev = d.sym
             k = pos[0].t
